@@ -428,6 +428,76 @@ Case gen_case(const std::string &profile, uint64_t seed, const GenOpts &go) {
         }
         return c;
     }
+    if (profile == "hist" || profile == "leak" || profile == "carry") {
+        base_config(rc, c, go, true);
+        int n = c.M.n;
+        if (n > 70) { /* keep histories cheap */ }
+        bool cpx = prec_is_complex(c.prec);
+        int vc0 = (int)c.tags["valclass"];
+        // genuinely different value sets on the same pattern
+        for (int k = 1; k < 3; ++k) {
+            int vc = rc.chance(0.6) ? vc0 : (int)rc.below(V_COUNT);
+            if (vc == V_PM1 || vc == V_SMALLINT) vc = V_UNIFORM;
+            c.values.push_back(gen_values(rc, c.M, vc, c.prec, c.transversal));
+        }
+        if (c.nrhs == 0) c.nrhs = 1;
+        c.rhs.clear();
+        for (int k = 0; k < 3; ++k) { std::vector<cld> b((size_t)c.ldb * c.nrhs); for (auto &x : b) x = round_prec(cld((ld)(rc.unit() * 2 - 1), cpx ? (ld)(rc.unit() * 2 - 1) : 0), c.prec); c.rhs.push_back(b); }
+        bool expert = rc.chance(0.6);
+        long ienv[9]; gen_tunables(rc, ienv, n);
+        if (ienv[3] < ienv[2]) ienv[3] = ienv[2];
+        long lwork = 0;
+        if (rc.chance(0.3)) {
+            // generous estimate of the need (C14 explores the boundary; here the workspace is meant to suffice)
+            long nnz = c.M.nnz(), w = ienv[1], P = 6;
+            long need = 1300 * nnz + 24L * n * n + 600L * n + P * ((2 * w + 8) * n * 8 + (n * w + 2 * n + (ienv[3] + ienv[4]) * w) * 16 + 64) + 65536;
+            lwork = 2 * need + 8 * (long)rc.below(64);
+        }
+        int align = lwork ? (rc.chance(0.5) ? 4 : 0) : 0;
+        int nops = (int)rc.range(1, 5);
+        auto mk = [&](int kind) {
+            OpSpec op; for (int i = 0; i < 9; ++i) op.ienv[i] = ienv[i];
+            op.kind = kind; op.x.panel_size = (int)ienv[1]; op.x.relax = (int)ienv[2];
+            op.x.nprocs = rc.chance(0.2) ? 1 : (int)rc.range(2, 6);
+            op.x.lwork = lwork; op.x.work_align = align;
+            static const double us[] = {0.0, 0.1, 0.5, 1.0, 1.0};
+            op.x.u = rc.chance(0.2) ? rc.unit() : us[rc.below(5)];
+            gen_sched(rs, op.sched, op.x.nprocs, baseline, profile);
+            return op;
+        };
+        int cur_vals = 0;
+        auto first = [&]() {
+            OpSpec op = mk(expert ? OP_GSSVX : OP_ROUTE);
+            op.values_id = cur_vals; op.rhs_id = (int)rc.below(3);
+            op.x.fact = expert ? (rc.chance(0.5) ? 1 : 0) : 0; op.x.trans = (int)rc.below(expert ? 3 : 2); op.x.refact = 0; op.x.usepr = 0;
+            c.ops.push_back(op);
+        };
+        first();
+        for (int k = 0; k < nops; ++k) {
+            int w = (int)rc.below(100);
+            if (w < 45) {           // refactor with new values
+                OpSpec op = mk(expert ? OP_GSSVX : OP_ROUTE);
+                cur_vals = (cur_vals + 1 + (int)rc.below(2)) % 3;
+                op.values_id = cur_vals; op.rhs_id = (int)rc.below(3);
+                op.x.fact = expert ? c.ops[0].x.fact : 0; op.x.trans = (int)rc.below(expert ? 3 : 2); op.x.refact = 1; op.x.usepr = rc.chance(0.5) ? 1 : 0;
+                c.ops.push_back(op);
+            } else if (w < 80) {    // solve with existing factors
+                OpSpec op = mk(expert ? OP_GSSVX : OP_GSTRS);
+                op.values_id = cur_vals; op.rhs_id = (int)rc.below(3); op.x.fact = 2; op.x.trans = (int)rc.below(expert ? 3 : 2); op.x.nprocs = (int)rc.range(1, 3);
+                c.ops.push_back(op);
+            } else {                // destroy, then a first-time factorization again
+                OpSpec d = mk(OP_DESTROY); d.values_id = cur_vals; c.ops.push_back(d);
+                if (!expert) { OpSpec f = mk(OP_ROUTE_FINALIZE); f.values_id = cur_vals; c.ops.push_back(f); }
+                cur_vals = (int)rc.below(3);
+                first();
+            }
+        }
+        if (profile != "hist") {   // leak / carry profiles end by giving everything back
+            OpSpec d = mk(OP_DESTROY); d.values_id = cur_vals; c.ops.push_back(d);
+            if (!expert) { OpSpec f = mk(OP_ROUTE_FINALIZE); f.values_id = cur_vals; c.ops.push_back(f); }
+        }
+        return c;
+    }
     // unknown profile: empty case
     return c;
 }
